@@ -33,7 +33,7 @@ ASSUMPTIONS = ["grid states (C13) and sampler outputs (C02) are taken as given: 
                "copula simulators: 2-d chain and its coupled version at level 1, single interval (the copula fixed-date "
                "projector raises for several dates)"]
 TIERS = {
-    "quick": {"worlds": 500, "wall": 500, "shrink_budget": 60,
+    "quick": {"worlds": 6000, "wall": 500, "shrink_budget": 60,
               "required_probes": ["c15.path_checked", "c15.zero_jump_path", "c15.multi_date", "c15.maxstep_mode",
                                   "c15.coupled_path", "c15.gap_gt_eps", "c15.nd_path_checked", "c15.step_cap_changes_between_levels"]},
     "thorough": {"worlds": 200000, "wall": 3300, "shrink_budget": 150,
